@@ -1,6 +1,6 @@
 """C05 — read-only accessors on JSONB bytes agree with the document they encode."""
 from .. import gen
-from . import common
+from . import common, treeoracle, sizes
 
 SPEC_THEOREM = 'Props/C05: accessor_m (enc v) = lift enc (accessor_t v) (tree answer), results canonical'
 TRUSTED = ['Coq 8.16.1 kernel', 'translator (tags, masks, is_jsonb set)', 'extraction + OCaml driver', 'Rust harness',
@@ -43,9 +43,57 @@ def py_get_by_index(v, i):
     return None
 
 
+def is_utf8(b):
+    try:
+        b.decode('utf-8')
+        return True
+    except UnicodeDecodeError:
+        return False
+
+
+def big_stream(ctx):
+    """every accessor at the first / middle / last position (index, name, key path) of containers of 255 .. 1000 members and of
+    documents with strings / keys of 255 .. 65536 bytes (sizes.py; second review H2).  All cases carry the meta of the tree
+    oracles, so each answer is judged against the decoded tree as well as diffed against the model."""
+    for lab, v in sizes.string_docs() + sizes.container_docs():
+        e = gen.hexarg(gen.enc(v))
+        for op in SCALAR_OPS:
+            ctx.add('%s %s' % (op, e), meta=(op, v))
+        n = len(v[1]) if v[0] in 'ao' else 0
+        kps, keysets, needles = [], [], [b'zzz']
+        if v[0] == 'a':
+            for i in sorted(set(p for p in sizes.positions(n) if p >= 0)) + [n + 1]:
+                ctx.add('get_by_index %s %d' % (e, i), meta=('get_by_index', v, i))
+            kps = [[('i', i)] for i in sizes.positions(n)]
+            kps += [[('i', i), ('n', b'i')] for i, x in sizes.first_mid_last(v) if x[0] == 'o'] + [[('i', n - 1), ('i', 0)]]
+            strs = [x[1] for x in v[1] if x[0] == 's']
+            if strs:
+                keysets = [[strs[0], strs[-1]], [strs[-1] + b'x', strs[-1]], [strs[-1][:-1]], [b'nokey', strs[len(strs) // 2]]]
+                needles += [strs[-1][:3], strs[-1], strs[-1] + b'x', strs[0][:-1]]
+        elif v[0] == 'o':
+            for _, (k, x) in sizes.first_mid_last(v):
+                variants = [(k, 0), (k, 1), (k.upper(), 1), (k.upper(), 0), (k[:-1], 1), (k + b'x', 0)]
+                for kk, ic in variants:
+                    if is_utf8(kk):            # names are handed to the crate as &str
+                        ctx.add('get_by_name %s %s %d' % (e, gen.hexarg(kk), ic), meta=('get_by_name', v, kk, ic))
+                kps += [[('n', k)], [('q', k)], [('n', k), ('i', 0)]] + ([[('n', k[:-1])]] if is_utf8(k[:-1]) else [])
+                needles += [k[:4], k, k + b'x'] + ([x[1][:-1], x[1] + b'x'] if x[0] == 's' else [])
+            ks = [k for k, _ in v[1]]
+            keysets = [[ks[0], ks[-1]], [ks[0], ks[-1] + b'x'], [b'nokey', ks[-1]], [ks[n // 2][:-1]], ks[::max(1, n // 7)]]
+        for kp in kps:
+            ctx.add('get_by_keypath %s %s' % (e, common.keypath_text(kp)), meta=('kp', v, kp))
+        for ks in keysets:
+            ctx.add('exists_all_keys %s %s' % (e, gen.hexlist(ks)), meta=('exists', v, list(ks), True))
+            ctx.add('exists_any_keys %s %s' % (e, gen.hexlist(ks)), meta=('exists', v, list(ks), False))
+        for nd in needles:
+            ctx.add('traverse_check_string %s %s' % (e, gen.hexarg(nd)), meta=('trav', v, nd))
+        ctx.count('big_documents', lab.split('-')[0].rstrip('0123456789'))
+
+
 def generate(ctx):
     r = ctx.rng
     ds = common.docs(ctx, ctx.scale(350, 12000), finite=False)
+    big_stream(ctx)
     ds += [('s', s) for s in CAST_STRINGS]
     ds += [('i', x) for x in gen.INT_POOL[::3]] + [('u', x) for x in gen.UINT_POOL[::3]] + [('d', x) for x in gen.FLOAT_POOL[::4] + gen.SPECIAL_FLOATS]
     # a key that is not UTF-8 against a document given as JSON TEXT (the from_utf8 error branch of the text path of
@@ -74,16 +122,16 @@ def generate(ctx):
             sub = r.sample(ks, min(len(ks), r.choice([0, 1, 2, 3])))
             if r.random() < 0.1:
                 sub = sub + [b'\xff\xfe']          # a key that is not UTF-8
-            ctx.add('exists_all_keys %s %s' % (e, gen.hexlist(sub)))
-            ctx.add('exists_any_keys %s %s' % (e, gen.hexlist(sub)))
+            ctx.add('exists_all_keys %s %s' % (e, gen.hexlist(sub)), meta=('exists', v, list(sub), True))
+            ctx.add('exists_any_keys %s %s' % (e, gen.hexlist(sub)), meta=('exists', v, list(sub), False))
         # key LISTS are iterators, not sets: the empty list, repeated keys, more keys than the container has members
         present = common.keys_of(v)[:2] or [x[1] for x in (v[1] if v[0] == 'a' else []) if x[0] == 's'][:2]
         for sub in ([], present * 2, (present[:1] * 5) if present else [b'a'] * 3, present + [b'missing'] + present):
-            ctx.add('exists_all_keys %s %s' % (e, gen.hexlist(sub)))
-            ctx.add('exists_any_keys %s %s' % (e, gen.hexlist(sub)))
+            ctx.add('exists_all_keys %s %s' % (e, gen.hexlist(sub)), meta=('exists', v, list(sub), True))
+            ctx.add('exists_any_keys %s %s' % (e, gen.hexlist(sub)), meta=('exists', v, list(sub), False))
         strs = [x[1] for x in gen.subvalues(v) if x[0] == 's'] + common.keys_of(v)
         for needle in ([b'', b'zzz'] + [s[:2] for s in strs[:3]] + strs[-1:]):
-            ctx.add('traverse_check_string %s %s' % (e, gen.hexarg(needle)))
+            ctx.add('traverse_check_string %s %s' % (e, gen.hexarg(needle)), meta=('trav', v, needle))
         for kp in common.keypaths_for(ctx, v, n=5):
             ctx.add('get_by_keypath %s %s' % (e, common.keypath_text(kp)), meta=('kp', v, kp))
             ctx.count('keypath_len', len(kp))
@@ -248,6 +296,27 @@ def judge(ctx):
             want = 'ok ' + gen.hexarg(gen.enc(x)) if x is not None else 'ok =none'
             if o != want:
                 ctx.violate('get_by_name differs from the member of the decoded tree', case=c.line, expected=want, observed=o)
+        # cheap independent oracles on the decoded tree (treeoracle.py: property text + doc comments, no model) for every other
+        # accessor; None = the documentation does not decide this case (counted), the model diff still covers it
+        want = None
+        if m[0] == 'get_by_name':
+            want = treeoracle.get_by_name(m[1], m[2], m[3] == 1)
+        elif m[0] == 'kp':
+            want = treeoracle.get_by_keypath(m[1], m[2])
+        elif m[0] == 'exists':
+            want = treeoracle.exists_keys(m[1], m[2], m[3])
+        elif m[0] == 'trav':
+            want = treeoracle.traverse_starts_with(m[1], m[2])
+        elif m[0] in SCALAR_OPS:
+            want = treeoracle.scalar_op(m[0], m[1])
+        if m[0] in SCALAR_OPS or m[0] in ('get_by_name', 'kp', 'exists', 'trav'):
+            name = m[0] if m[0] in SCALAR_OPS else {'kp': 'get_by_keypath', 'exists': 'exists_keys', 'trav': 'traverse_check_string'}.get(m[0], m[0])
+            if want is None:
+                ctx.count('tree_oracle_not_judged', name)
+            else:
+                ctx.count('tree_oracle_judged', name)
+                if o != want:
+                    ctx.violate('%s differs from the answer on the decoded tree (independent oracle)' % name, case=c.line[:600], expected=want[:300], observed=o[:300])
         if o.startswith('ok ') and not o.startswith('ok =') and m[0] in ('get_by_index', 'get_by_name', 'kp', 'object_keys'):
             try:
                 gen.dec(gen.unhexarg(o[3:]))
